@@ -533,7 +533,10 @@ def run(ctx):
         "non-ASCII, markup-like text), through exec'd and file-less code, with 27 adversarial messages x 8 exception kinds, "
         "a cause, call chains through ignored / not ignored modules and recursion (direct, mutual) up to depth 60 are rendered "
         "at every verbosity, UTF-8 on/off, with/without an ignore pattern, simple/full; what was written is tokenised "
-        "(head lines, listing entries, snippet rows with the source rows) and ErrorReportTrace decides every P-clause.  "
+        "(head lines, listing entries, snippet rows with the source rows) and ErrorReportTrace decides every P-clause; the "
+        "highlighter alone runs on generated modules (token stream shipped: TLC re-runs the assembly and decides which rows "
+        "are single-token rows) and on snippets of real files (clikit's own sources and the standard library; observation "
+        "level: rows + source rows + the tokenizer's multi-row flags).  "
         "Non-trivial: the traceback has >= 2 frames or the message / the snippet window contains markup-like text"
     )
     ctx.assumptions += [
@@ -628,10 +631,13 @@ def _run(ctx, quick):
         cases.append({"kind": "highlight", "src": src})
         ctx.count()
         ctx.nontriv(("h", t))
-    corpus = corpus_files(ctx.rng, 25 if quick else 400)
+    corpus = corpus_files(ctx.rng, 25 if quick else 400, 15 if quick else 400)
     for path in corpus:
-        with open(path, encoding="utf-8") as f:
-            src = f.read()
+        try:
+            with open(path, encoding="utf-8") as f:
+                src = f.read()
+        except (OSError, UnicodeDecodeError):
+            continue
         for ev, case in corpus_events(path, src, ctx.rng, 3 if quick else 6):
             traces.append([ev])
             cases.append(case)
@@ -642,21 +648,24 @@ def _run(ctx, quick):
         ctx.validate(SPEC, "ErrorReportTrace", "ErrorReportTrace.cfg", pt, cases=pc, name="recorded renderings", chunk=1000)
 
 
-def corpus_files(rng, n):
-    """real Python files: the library under test itself"""
+def corpus_files(rng, n, n_std):
+    """real Python files: n of the library under test itself and n_std of the standard library"""
     import clikit
 
-    root = os.path.dirname(clikit.__file__)
-    files = []
-    for d, _, fs in os.walk(root):
-        for f in fs:
-            if f.endswith(".py"):
+    def pick(root, count, skip=()):
+        files = []
+        for d, _, fs in os.walk(root):
+            if any(x in d for x in skip):
+                continue
+            for f in fs:
                 p = os.path.join(d, f)
-                if os.path.getsize(p) > 200:
+                if f.endswith(".py") and os.path.getsize(p) > 200:
                     files.append(p)
-    files.sort()
-    rng.shuffle(files)
-    return files[:n]
+        files.sort()
+        rng.shuffle(files)
+        return files[:count]
+
+    return pick(os.path.dirname(clikit.__file__), n) + pick(os.path.dirname(os.__file__), n_std, ("site-packages", "test", "idlelib"))
 
 
 def corpus_events(path, src, rng, k):
